@@ -1261,7 +1261,7 @@ class Index(IndexBase):
         '''Return an Index with values rotated forward and wrapped around (with a postive shift) or backward and wrapped around (with a negative shift).
         '''
         values = self.values # force usage of property for cache update
-        if shift % len(values):
+        if len(values) and shift % len(values):
             values = array_shift(
                     array=values,
                     shift=shift,
